@@ -332,6 +332,17 @@ func (e *enc) instr(b *ssa.BasicBlock, ins ssa.Instruction) {
 			e.assume(fmt.Sprintf("(= (select %s %s) ((as const (Array %s %s)) %s))", e.hname(arr), ar, e.isort(), e.smtSort(es), z))
 		}
 	case *ssa.MakeInterface:
+		if c, isC := i.X.(*ssa.Const); isC && c.Value == nil {
+			if _, isPtr := i.X.Type().Underlying().(*types.Pointer); isPtr {
+				// a literal typed nil pointer ((*T)(nil), e.g. for reflect.TypeOf): deliberately an interface
+				// holding nil; it is outside the "no typed nil" convention and gets no such fact
+				n := "t_" + i.Name()
+				e.names[i] = n
+				e.decl(n, "Iface")
+				e.assume(fmt.Sprintf("(= %s %s)", n, e.mkIface("0", i.X.Type())))
+				return
+			}
+		}
 		n := e.havoc(i)
 		x := e.val(i.X)
 		if _, isPtr := i.X.Type().Underlying().(*types.Pointer); isPtr && !e.localAlloc[x] {
